@@ -11,6 +11,10 @@ OBLIGATIONS = [
        what='read_oas on spec-encoded records (token stream): RECTANGLE explicit and square, modal-variable reuse (layer, datatype, width, height, position) under XYRELATIVE: loads to exactly the encoded layout, every token consumed with the specified kind',
        bound='one or two records per cell; 32-bit layer/datatype, coordinates and sizes within 2^20; grid = 1 (real 1.0); integer/delta/real/string codecs as typed tokens (C19 proves the codecs)',
        variants=[{'ELEM': e} for e in (0, 1)], unwind=20, timeout=400, mem_gb=12, nvec=5),
+    Ob('reader_records_more', 'C04/rd_oas.c', [RO], ir='ni', stubs=TOKSTUBS, defines={'RC': 0, 'REFL': 0}, real=False,
+       what='read_oas on spec-encoded records (token stream): POLYGON with a general point list, PLACEMENT by name with each rotation code and the reflection bit, TEXT with inline string',
+       bound='one record per cell; values within 2^20 (polygon: 2^10)',
+       variants=[{'ELEM': e} for e in (2, 4)] + [{'ELEM': 3, 'RC': r, 'REFL': f} for r in range(4) for f in (0, 1)], unwind=20, timeout=400, mem_gb=12, nvec=5),
 ]
 BOUNDS = 'one cell, one or two RECTANGLE records; all field values symbolic within 2^20 (layer/datatype full 32 bits)'
 OUTSIDE = 'every other record kind: POLYGON with a symbolic point list (no verdict in 400 s), PLACEMENT and TEXT (memory blow-up > 11 GB in the END-of-file name resolution), PATH, TRAPEZOID, CTRAPEZOID, CIRCLE, PROPERTY, CBLOCK, name tables; the whole writer direction; harness variants ELEM 2..4 are kept in harness/C04/rd_oas.c for future engines but are not run'
